@@ -141,6 +141,12 @@ def setDepression (d : DepArg α) : Except Err α :=
   | .astronomical => .ok 18.0
   | .num x => pyFloat? x
 
+/-- location.py `timezone` setter: a name the zone database knows replaces the zone; any other
+    raises ValueError and leaves the location as it was.  `known` is the database's answer
+    (`name in zoneinfo.available_timezones()`), a parameter of the model. -/
+def setTimezone (st : LocState α) (name : Str) (known : Bool) : LocState α × Option Err :=
+  if known then ({ st with tz := name }, none) else (st, some .bareValueError)
+
 /-- the command line after argument parsing (__main__.py:35-72) -/
 structure CliArgs (α : Type) where
   name : Str
